@@ -10,6 +10,12 @@ CHECKS = {
          "text": "Decides validation (non-2-d, non-finite, row-count vs. configured vectors/minima -> ValueError before any value use), purity, statelessness, torch-seeded RNG only, dtype preservation and positive homogeneity (degree-1 result, scale-free decisions except the documented norm_eps threshold). Finiteness over 27 orders of magnitude is NOT decided.",
          "note": OPS},
 }
+CHECKS["C03"] = {"technique": "abstract interpretation with origin tracking: parameter-role flow to the threshold / regulariser / QP-bound / solver sinks; must-pass-through the QP",
+  "text": "Structural necessary conditions only: norm_eps is compared with the largest singular value (degree 1, from the svd of the raw matrix), reg_eps scales an identity added to the Gramian handed to solve_qp as P, pref_vector (or uniform 1/m) is the QP bound, solver reaches solve_qp, and the weights come out of the QP on every returning path. Exactness/uniqueness of the projection is numerical and not decided.",
+  "note": OPS}
+CHECKS["C16"] = {"technique": "abstract interpretation + polynomial normal forms of slice/narrow/topk bounds and row-count guards; dataflow reconstruction from tagged structural operators",
+  "text": "Decides the index arithmetic, axes and direction flags: TrimmedMean = mean over window [b, m-b) of the ascending row-wise sort; Krum = cdist(p=2, exact differences), ascending top-(m-f-1) minus self = m-f-2 distances summed, n_selected lowest scores, weights 1/n_selected; guards raise iff m < 2b+1 / m < f+3 / m < k; constructors reject b<0, f<0, k<1. Floating-point behaviour at 1e12 corruption and ties are not decided.",
+  "note": OPS + "; torch.cdist switches to the mm expansion above 25 rows unless compute_mode forbids it"}
 NA_PENDING = "check not built yet in this commit (planned, see DESIGN.md section 5)"
 NOT_APPLICABLE = {
  "C04": "Non-conflict is a numerical inequality on the outputs of a QP, a Frank-Wolfe loop and a conic solver with input-dependent allowances; no clause of it is visible in the shape of the code.",
